@@ -728,7 +728,11 @@ class StmtMixin:
             s1.pc = base_pc + ((c, True),)
             s2.pc = base_pc + ((c, False),)
             tmp = "$iter%d" % self.g.serial()
-            s1.locals[tmp], s2.locals[tmp] = it.args[1], it.args[2]
+            def arm(a_):
+                # a fresh tuple of the alternative's items: the name must not resolve back to the merged list object
+                ki = self.known_items(a_) if a_.op != "Phi" else None
+                return a_ if ki is None else self.mk("Tuple", tuple(ki), None, site)
+            s1.locals[tmp], s2.locals[tmp] = arm(it.args[1]), arm(it.args[2])
             loop = ast.copy_location(ast.For(target=s.target, iter=ast.copy_location(ast.Name(id=tmp, ctx=ast.Load()),
                                                                                    s.iter),
                                              body=s.body, orelse=s.orelse, type_comment=None), s)
